@@ -10,7 +10,8 @@
 //           --pairs 1: additionally two includes (first+last child) x catalogue^2 x plain b.xml; --pairs 2: two includes
 //           (first+last child; nested+following sibling) x catalogue^2 x 3 forms of b.xml
 //   defects the minimised reproducers of KNOWN_DEFECTS, evaluated strictly (each is reported as a violation)
-//   leak    the opts singles re-executed under LeakSanitizer (the driver re-execs itself with detect_leaks=1)
+//   leak    catalogue x 2 contexts re-executed under LeakSanitizer with a leak check after every case (the driver re-execs
+//           itself with ASAN_OPTIONS=detect_leaks=1; --leak-selftest leaks one block per case to prove the check is live)
 #include "c20_ref.hpp"
 #include <unistd.h>
 using namespace xv;
@@ -37,6 +38,20 @@ extern "C" int __lsan_do_recoverable_leak_check();
 #endif
 
 // ---------------------------------------------------------------- Xerces side
+// File manager with a per-parse budget of open() calls: the reference needs < 20 opens for any case of the enumerated spaces; an
+// implementation that does not notice an inclusion loop would recurse until the stack or the 20 s watchdog ends it.  After kOpenBudget
+// opens every further open fails (the resource "disappears"), which ends the recursion at once, and the case is reported as
+// `runaway-inclusion` - a fast, deterministic stand-in for the hang.
+struct GuardVfs : public Vfs {
+    static const uint64_t kOpenBudget = 200;
+    uint64_t opens = 0;
+    bool tripped = false;
+    bool admit() { if (++opens > kOpenBudget) { tripped = true; return false; } return true; }
+    FileHandle fileOpen(const XMLCh* path, bool toWrite, MemoryManager* const mm) override { return admit() ? Vfs::fileOpen(path, toWrite, mm) : 0; }
+    FileHandle fileOpen(const char* path, bool toWrite, MemoryManager* const mm) override { return admit() ? Vfs::fileOpen(path, toWrite, mm) : 0; }
+};
+static GuardVfs* g_guard = nullptr;
+
 struct XOut {
     std::vector<std::string> lines;   // canonical DOM dump
     std::vector<std::string> bases;   // "qname=baseURI" per element, document order
@@ -44,6 +59,8 @@ struct XOut {
     int fatals = 0, errs = 0, warns = 0;
     std::string exc;
     bool hasDoc = false;
+    bool runaway = false;
+    uint64_t opens = 0;
     bool isErr() const { return fatals || errs || !exc.empty(); }
 };
 struct ErrH : public ErrorHandler {
@@ -82,6 +99,7 @@ static void harvest(DOMDocument* doc, XOut& o) {
 }
 static XOut run_xerces(int api, const std::string& sys) {
     XOut o;
+    g_guard->opens = 0; g_guard->tripped = false;
     try {
         if (api == 0) {
             XercesDOMParser p;
@@ -112,6 +130,7 @@ static XOut run_xerces(int api, const std::string& sys) {
     catch (const DOMException& e) { o.exc = std::string("DOMException:") + std::to_string((int)e.code); }
     catch (const std::exception& e) { o.exc = std::string("FOREIGN:std:") + e.what(); }
     catch (...) { o.exc = "FOREIGN:unknown"; }
+    o.runaway = g_guard->tripped; o.opens = g_guard->opens;
     return o;
 }
 
@@ -290,6 +309,8 @@ static void evaluate(const Case& cs, Ctx& c) {
         }
         if (!x.exc.empty() && api == 0) c.count("xerces_exc:" + x.exc);
         std::vector<std::pair<std::string, std::string>> disc;  // (kind, detail)
+        if (x.runaway) disc.push_back({"runaway-inclusion", "more than " + std::to_string(GuardVfs::kOpenBudget) + " files opened"});
+        if (api == 0) c.count("xerces_file_opens", x.opens);
         if (x.exc.compare(0, 8, "FOREIGN:") == 0 || x.exc == "OutOfMemoryException") disc.push_back({"foreign-exception", x.exc});
         std::vector<std::string> got = filter_lines(x.lines);
         bool treeEq = false, baseEq = false;
@@ -459,13 +480,13 @@ static const int O_POS[] = {TP_DOCELEM, TP_FIRST, TP_MIDDLE, TP_LAST, TP_NESTED}
 static bool O_singles = true;
 static uint64_t opts_singles() { return O_singles ? 5ULL * O_cat.size() * O_bforms.size() : 0; }
 static uint64_t opts_total() { return opts_singles() + (O_pairs == 2 ? 2ULL * O_cat.size() * O_cat.size() * 3 : O_pairs == 1 ? 1ULL * O_cat.size() * O_cat.size() : 0); }
-static uint64_t leak_total() { return 3ULL * O_cat.size(); }
+static uint64_t leak_total() { return 2ULL * O_cat.size(); }
 static void opts_case(uint64_t idx, Case& cs) {
     FileSpec a; int bform;
-    if (g_leak) {  // catalogue x {(middle, plain b), (middle, b includes a: loop), (document element, plain b)}
-        int v = (int)(idx % 3); int ci = (int)(idx / 3);
+    if (g_leak) {  // catalogue x {(middle child, plain b), (document element, b includes a: loop)}
+        int v = (int)(idx % 2); int ci = (int)(idx / 2);
         bform = (v == 1) ? 4 : 0;
-        a.tmpl = (v == 2) ? TP_DOCELEM : TP_MIDDLE; a.inc[0] = O_cat[ci];
+        a.tmpl = (v == 1) ? TP_DOCELEM : TP_MIDDLE; a.inc[0] = O_cat[ci];
         cs.label = "leak pos" + std::to_string(a.tmpl) + " [" + a.inc[0].str() + "] b" + std::to_string(bform);
     } else if (idx < opts_singles()) {
         bform = (int)(idx % O_bforms.size()); idx /= O_bforms.size();
@@ -528,6 +549,9 @@ int main(int argc, char** argv) {
         g_leak = true;
     }
     xml_init();
+    g_guard = new GuardVfs();            // replace the plain VFS installed by xml_init()
+    XMLPlatformUtils::fgFileMgr = g_guard;
+    delete g_vfs; g_vfs = g_guard; g_net->vfs = g_guard;
     Runner R;
     R.name = g_space;
     std::string extra;
